@@ -85,6 +85,18 @@ Theorem unread_body :
     if total =? declared then Open [] else if total <? declared then Closed else Unmodelled.
 Proof. exact after_body_spec. Qed.
 
+(** The tie to the run: [h1w.expect] reports for every generated history whether it meets the hypotheses
+    ([c8_hyps]: polite client, [reply_ok] for every reply of the fixture application along the history); for
+    each such history the model's run — the prediction the real server's bytes are compared with — has the
+    property by this theorem, not by evaluation. *)
+Theorem checked_history_is_instance : forall (cfg : c8cfg) (reqs : list (c8req * bytes * nat)),
+  c8_hyps cfg (c8_state0 cfg) (with_actions (c8_limit cfg) 1 reqs) = true ->
+  exists ss, c8_run true true cfg reqs = (map Some ss, Open []) /\
+             length ss = length (with_actions (c8_limit cfg) 1 reqs) /\
+             parse_responses (map (fun h => rq_method (q_req (h_q h))) (with_actions (c8_limit cfg) 1 reqs))
+                             (written (map Some ss)) = Some (map observable ss).
+Proof. exact checked_history_lemma. Qed.
+
 (** The ways the loop ends a connection: once closed nothing more is written; an unknown Host gets a
     well-formed 409 and the connection is closed; a request beyond the limiter's drop level closes it unanswered. *)
 Theorem closed_is_silent :
@@ -172,6 +184,9 @@ Example ex_history :
   option_map (map (fun p => (p_status p, N.of_nat (length (p_body p)))))
     (parse_responses [M_POST; M_HEAD; M_GET; M_GET] (written os)) = Some [(405, 190); (200, 0); (206, 5); (429, 342)].
 Proof. vm_compute. repeat split. Qed.
+Example ex_checked_history :
+  c8_hyps w_cfg (c8_state0 w_cfg) (with_actions (c8_limit w_cfg) 1 w_unread) = true.
+Proof. vm_compute. reflexivity. Qed.
 Example ex_polite :
   polite c8req (fun q => rq_method (q_req q)) (fun q => header s_content_length (q_req q)) (fun q => negb (q_nohost q))
          (mkHreq c8req (fst (fst (w_req (B "POST") (B "/f.txt") [(B "content-length", B "10")] (B "0123456789") 4)))
